@@ -639,7 +639,6 @@ func ruleOptionalDeref(fileScope func(string) bool, ruleID string, min int) func
 // npExceptions: "<func>/*<expr>" -> invariant that makes the field non-nil there
 var npExceptions = map[string]string{}
 
-
 // prepare computes the single-definition aliases and the monotone boolean flags of a function.
 func (na *nilAnalyzer) prepare(info *types.Info, d *ast.FuncDecl) {
 	npAliases = map[types.Object]ast.Expr{}
@@ -750,7 +749,6 @@ func (na *nilAnalyzer) prepare(info *types.Info, d *ast.FuncDecl) {
 	}
 }
 
-
 // constructedNonNil: se selects an unexported pointer field that every composite literal of its struct type in the
 // module initialises with a non-nil value (and the struct is never created by new()/zero-value declaration in the
 // module outside its package's literals): the field is non-nil by construction.
@@ -796,7 +794,6 @@ func constructedNonNil(c *core.Ctx, info *types.Info, se *ast.SelectorExpr) bool
 	}
 	return lits > 0 && lits == good
 }
-
 
 // rootParam: the parameter of d that expression e hangs off (through selectors / index / deref / single-definition
 // aliases), with its position in the parameter list.
